@@ -238,9 +238,9 @@ func CheckKinds(run *core.Run, prog *load.Program) {
 				continue
 			}
 			// every path through the clause passes the descent (or the loop/nil guard that holds it)
-			start := nodeHolding(f, cl.Body[0])
-			sb, si := locate(f, start)
+			sb, si := firstNodeWithin(f, cl.Body[0])
 			if sb < 0 {
+				run.Undecided("G-KINDS/component-every-path", k+"."+comp, cpos, "cannot locate the start of the case in the control-flow graph")
 				continue
 			}
 			r := f.Explore(sb, si, cfgx.Cuts{Nodes: cut})
@@ -321,4 +321,22 @@ func accessorChain(arg, first, last, comp string) bool {
 		idx += j + len(p)
 	}
 	return okAll
+}
+
+// firstNodeWithin returns the CFG position of the first node (by source
+// position) that lies inside stmt.
+func firstNodeWithin(f *cfgx.Func, stmt ast.Node) (int, int) {
+	bb, bi := -1, -1
+	var best token.Pos
+	for b, blk := range f.G.Blocks {
+		if !blk.Live {
+			continue
+		}
+		for i, n := range blk.Nodes {
+			if n.Pos() >= stmt.Pos() && n.End() <= stmt.End() && (bb < 0 || n.Pos() < best) {
+				bb, bi, best = b, i, n.Pos()
+			}
+		}
+	}
+	return bb, bi
 }
